@@ -380,7 +380,7 @@ Proof.
     apply ready_of_add; auto. apply (nd_scstates HK).
   - (* InvC *)
     unfold InvC in *; sb. destruct HC as [C1 C2 C3 C4]. constructor; auto;
-      rewrite count_st_aset_absent by auto; cbn; rewrite Z.add_0_r; auto.
+      rewrite count_st_aset_absent by auto; cbn [cstate_eqb]; rewrite Z.add_0_r; auto.
   - apply InvG_some. exact Hcfg.
   - (* InvS *)
     unfold InvS in *; sb. rewrite map_app. cbn [map sl_streams].
@@ -789,7 +789,7 @@ Section Swap.
       unfold InvC, swap_state in *; sb. destruct HC as [C1 C2 C3 C4].
       pose proof (nd_scstates HK) as ND.
       constructor; auto; rewrite count_st_swap by auto;
-        destruct (aget (b_scstates s) (sl_conn ref)); cbn; rewrite Z.add_0_r; auto.
+        destruct (aget (b_scstates s) (sl_conn ref)); cbn [cstate_eqb]; rewrite Z.add_0_r; auto.
     - apply InvG_some. unfold swap_state; sb. eapply InvG_cfg_refr; eauto. eapply aget_nonnil; eauto.
     - unfold InvS, swap_state in *; sb. rewrite map_upd_nth_same by reflexivity. exact HS.
   Qed.
